@@ -1481,7 +1481,7 @@ def r038(P, rep):
             rep.undecided('R03.8', 'parse.c:%s:declarators' % fname, 'no path completes a declarator', where=where)
 
     # --- (c) function definitions -------------------------------------------------------------
-    it, paths = decl_events(P, pu, 'function', lambda tm, ctx, rest: [tm.token('tok'), Obj('Type', lazy=True, label='basety'), Obj('VarAttr', lazy=True, label='attr')], loop_limit=1)
+    it, paths = decl_events(P, pu, 'function', lambda tm, ctx, rest: [tm.token('tok'), Obj('Type', lazy=True, label='basety'), Obj('VarAttr', lazy=True, label='attr')], loop_limit=1, max_paths=60000)
     where = 'parse.c:%d' % pu.fn('function').line
     n_body = n_decl = 0
     for ctx, o, evs in paths:
